@@ -264,6 +264,84 @@ def run_prob(case: dict) -> Tuple[List[str], List[str], List[str]]:
     return out, lines, problems
 
 
+# ------------------------------------------------------------------------------------------------ probabilistic, sums off 1
+PN_DEN = 1 << 30          # probabilities are multiples of 2^-30: exact in binary floating point, sums exact
+PN_DELTAS = [0, 0, 0, 1, -1, 8, -8, 16, -16, 17, -17, 32, -32, 256, -256, 1000, -1000, 2048, -2048]
+# in units of 2^-30: 16 = 2^-26 = numpy's atol exactly (accepted), 17 / 32 just outside (ValueError in get_action, the settings
+# validator accepts up to 1e-6 ~ 1073 units), 2048 = 2^-19 rejected by the validator
+
+
+def gen_probn(rng: Rng, malformed: bool = False) -> dict:
+    n = rng.range(1, 6)
+    units = [0] * n
+    for _ in range(16):
+        units[rng.below(n) if rng.chance(2, 3) else rng.below(max(1, n // 2))] += 1
+    ws = [u << 26 for u in units]
+    delta = rng.choice(PN_DELTAS)
+    pos = [i for i, w in enumerate(ws) if w > 0]
+    ws[rng.choice(pos)] += delta
+    n_actions = n
+    if malformed:
+        w = rng.below(3)
+        if w == 0 and n > 1:
+            a = rng.choice(pos)
+            b = rng.choice([i for i in range(n) if i != a])
+            ws[a] += ws[b] + (1 << 26)    # a negative probability, sum unchanged: numpy raises "probabilities are not non-negative"
+            ws[b] = -(1 << 26)
+        elif w == 1:
+            n_actions = n + 1
+        else:
+            n_actions = max(0, n - 1)
+    keys = rng.shuffle(list(range(n))) if rng.chance(3, 4) else list(range(n))
+    return {"agent": "probn", "table": [[k, ws[k]] for k in keys], "den": PN_DEN, "n_actions": n_actions,
+            "draws": rng.range(3, 12), "seed": rng.below(1 << 30)}
+
+
+def run_probn(case: dict) -> Tuple[List[str], List[str], List[str]]:
+    """ProbabilisticAgent with probability vectors whose sum is off 1 by a few ulps / more than numpy's tolerance / more than
+    the validator's, and with negative entries: model line `probn` (argument checks of `Generator.choice` modelled)."""
+    import numpy as np
+    den = case["den"]
+    probs = {int(k): w / den for k, w in case["table"]}
+    cfg = {"ref": "g", "team": "GREEN", "type": "probabilistic-agent",
+           "agent_settings": {"action_probabilities": probs},
+           "action_space": {"action_map": {i: {"action": "node-shutdown", "options": {"node_name": f"n{i}"}}
+                                           for i in range(case["n_actions"])}}}
+    tb = ",".join(f"{k}:{w}" for k, w in case["table"]) or "-"
+    out, lines, problems = [], [], []
+    if any(Fraction(w / den) != Fraction(w, den) for _, w in case["table"]):
+        problems.append("rig: a probability of the case is not exact in binary floating point")
+    try:
+        agent = _agent_from(cfg)
+    except Exception:
+        agent = None
+    order = vector_order_of_impl()
+    by_key = dict((int(k), w) for k, w in case["table"])
+    vec = [by_key.get(i, 0) for i in range(len(by_key))] if order == "key" else [w for _, w in case["table"]]
+    total = sum(vec)
+    bounds = [Fraction(sum(vec[:i + 1]), total) for i in range(len(vec))] if total > 0 else []
+    agent_rng = np.random.default_rng(case["seed"])
+    if agent is not None:
+        agent.rng = agent_rng
+    for _ in range(case["draws"]):
+        u = copy.deepcopy(agent_rng).random()
+        fr = Fraction(u)
+        if any(abs(fr - b) < Fraction(1, 1 << 48) for b in bounds):
+            agent_rng.random()          # within rounding distance of a cdf boundary: float and exact comparison may differ
+            continue
+        lines.append(f"probn {order} {case['n_actions']} {den} {fr.numerator} {fr.denominator} {tb}")
+        if agent is None:
+            out.append("rejected")
+            continue
+        try:
+            act, par = game_call(agent, 0)
+            out.append(f"chose {int(par['node_name'][1:])}")
+        except Exception:
+            out.append("raised")
+            agent_rng.random()
+    return out, lines, problems
+
+
 _ORDER_CACHE: Dict[str, str] = {}
 
 
@@ -811,7 +889,8 @@ def run_rand(case: dict) -> Tuple[List[str], List[str], List[str]]:
 
 # ================================================================================================ dispatch
 def gen_case(rng: Rng, kind: str, malformed: bool = False) -> dict:
-    return {"periodic": gen_periodic, "prob": gen_prob, "tap1": gen_tap1, "tap3": gen_tap3, "rand": gen_rand}[kind](rng, malformed)
+    return {"periodic": gen_periodic, "prob": gen_prob, "probn": gen_probn, "tap1": gen_tap1, "tap3": gen_tap3,
+            "rand": gen_rand}[kind](rng, malformed)
 
 
 def kind_of(case: dict) -> str:
@@ -827,6 +906,8 @@ def run_impl(case: dict) -> Tuple[List[str], List[str], List[str]]:
         return o, lines_periodic(case), p
     if k == "prob":
         return run_prob(case)
+    if k == "probn":
+        return run_probn(case)
     if k == "rand":
         return run_rand(case)
     if k == "tap1":
